@@ -214,7 +214,14 @@ pub(super) fn update_times_backward(est_times: &mut [EstTime]) {
                 let time_sub_alt = est_times[idx_prev_alt.idx()].time_sched - time_sched;
                 est_times[idx_prev_alt.idx()].time_sched = time_sched;
                 is_est_passed[idx_prev_alt.idx()] = true;
-                queue.push(EstTimePrev::new(time_sched, time_sub_alt, idx_prev_alt));
+                // Key the alternate like every other queue entry: by the time its own previous node
+                // would get (the alternate itself is a zero-duration join node scheduled at `time_sched`)
+                let idx_prev_alt_prev = est_times[idx_prev_alt.idx()].idx_prev;
+                queue.push(EstTimePrev::new(
+                    time_sched - est_times[idx_prev_alt_prev.idx()].time_to_next,
+                    time_sub_alt,
+                    idx_prev_alt,
+                ));
             }
 
             assert!(!is_est_passed[idx_prev.idx()]);
